@@ -821,3 +821,72 @@ Proof.
     assert (Et4 : w_tsig w4 = None) by congruence.
     rewrite Et4, app_nil_r. split; auto. rewrite Hdr5. exact Hdr.
 Qed.
+
+(* ---------------------------------------------------------------- whole runs *)
+
+Lemma Forall2_len {A B} (P : A -> B -> Prop) l1 l2 : Forall2 P l1 l2 -> length l1 = length l2.
+Proof. induction 1; simpl; auto. Qed.
+
+Definition y0 : lay := mkLay [] [].
+
+Lemma LInv_new buf limit w0 : writer_new buf limit = Ok w0 -> LInv (mkD w0 []) y0 am0 L0.
+Proof.
+  intros H. unfold writer_new in H.
+  destruct (Nat.min limit (length buf) <? header_size); [discriminate|].
+  destruct (length buf <? header_size); [discriminate|].
+  inversion H; subst w0. clear H. split; simpl.
+  - constructor; simpl; auto. intros s. unfold L0. tauto.
+  - constructor; simpl; auto; try constructor; try lia; repeat split; try lia.
+Qed.
+
+Theorem run_ok2 : forall ops d g y A L, AInv d g L -> LInv d y A L -> run_contract d g ops ->
+  exists d' outs alive g' y' L', run d ops = Ok (d', outs, alive) /\ AInv d' g' L' /\
+    LInv d' y' (areplay A ops outs) L'.
+Proof.
+  induction ops as [|o rest IH]; intros d g y A L Hi HL Hc.
+  - simpl. exists d, [], true, g, y, L. auto.
+  - destruct Hc as [Hwf [Hoc Hrest]]. pose proof (step2_all d g y A L o Hi HL Hwf Hoc) as S.
+    unfold step_ok2 in S. cbn [run].
+    destruct (step d o) as [[d1 r]|e|] eqn:E; try contradiction. cbn [bind].
+    destruct S as [L1 [y1 [H1 HL1]]].
+    destruct (stops o r).
+    + exists d1, [r], false, (gstep d g o r), y1, L1. split; auto. split; auto.
+      simpl. destruct rest; exact HL1.
+    + destruct (IH d1 (gstep d g o r) y1 (astep A o r) L1 H1 HL1 Hrest) as [d2 [outs [alive [g2 [y2 [L2 [E2 [H2 HL2]]]]]]]].
+      rewrite E2. cbn [bind]. exists d2, (r :: outs), alive, g2, y2, L2. auto.
+Qed.
+
+(* the finished message: its layout, tied to the abstract message of the succeeded operations *)
+Theorem run_writer_layout buf limit w0 ops : writer_new buf limit = Ok w0 ->
+  run_contract (mkD w0 []) g0 ops ->
+  exists rr, run_writer buf limit ops = Ok rr /\
+    match rr_final rr with
+    | Some (len, b) =>
+      exists d wF LF yF,
+        len = w_cursor wF /\ b = w_buf wF /\ NInv wF (length b) LF /\
+        PLay b LF yF (w_rr_start (d_w d)) len /\
+        Forall2 q_desc (y_qs yF) (am_qs (areplay am0 ops (rr_outcomes rr))) /\
+        Forall2 rr_desc2 (y_rrs yF)
+          (am_an (areplay am0 ops (rr_outcomes rr)) ++ am_ns (areplay am0 ops (rr_outcomes rr)) ++
+           am_ar (areplay am0 ops (rr_outcomes rr)) ++ pseudo (d_w d)) /\
+        FLay (d_w d) (mkLay (y_qs yF) (firstn (length (y_rrs yF) - length (pseudo (d_w d))) (y_rrs yF)))
+             (areplay am0 ops (rr_outcomes rr)) /\
+        slice b 4 12 = be16 (w_qd (d_w d)) ++ be16 (w_an (d_w d)) ++ be16 (w_ns (d_w d)) ++ be16 (w_ar (d_w d))
+    | None => True
+    end.
+Proof.
+  intros H0 Hc. unfold run_writer, run_writer_gen. rewrite H0. cbn [bind].
+  destruct (run_ok2 ops _ _ _ _ _ (AInv_new _ _ _ H0) (LInv_new _ _ _ H0) Hc)
+    as [d [outs [alive [g [y [L [E [Hi HL]]]]]]]].
+  rewrite E. cbn [bind]. destruct alive.
+  - destruct (finish_ok2 d g y _ L Hi HL) as [wF [LF [rsP [EF [HiF [PF [DF HF]]]]]]].
+    rewrite EF. cbn [bind]. eexists. split; [reflexivity|]. simpl.
+    exists d, wF, LF, (mkLay (y_qs y) (y_rrs y ++ rsP)). destruct HL as [_ HFl].
+    split; auto. split; auto. split; auto. split; auto. simpl.
+    split; [apply HFl|]. split.
+    { rewrite !app_assoc. apply Forall2_app; auto. rewrite <- !app_assoc. apply HFl. }
+    split; auto.
+    rewrite app_length, (Forall2_len _ _ _ DF). replace (length (y_rrs y) + length (pseudo (d_w d)) - length (pseudo (d_w d))) with (length (y_rrs y)) by lia.
+    rewrite firstn_app, Nat.sub_diag, firstn_all. simpl. rewrite app_nil_r. destruct y; exact HFl.
+  - eexists. split; [reflexivity|]. exact I.
+Qed.
